@@ -261,8 +261,10 @@ def rule_W6(ctx: Ctx) -> None:
     first = X.assignments_to(ta.node, "output")
     ok = bool(first) and X.same_expr(first[0], "list(SPECIAL_TOKENS.values())")
     ext = [c for c in X.method_calls(ta.node, "extend") if X.U(c.func.value) == "output"]
-    ut = [c for c in ext if "_NDINDEX_FUNC_MAP[self.tokenization_mode]" in X.U(c)]
-    ok_ut = len(ut) == 1 and "self._node_strings_map[coord][0]" in X.U(ut[0]) and "(self.max_grid_size)" in X.U(ut[0]).replace("\n", "").replace(" ", "")
+    # normalised shape: `for v in _NDINDEX_FUNC_MAP[mode](self.max_grid_size): output.append(self._node_strings_map[v][0])`
+    ut = [n for n in ast.walk(ta.node) if isinstance(n, ast.For) and X.same_expr_x(n.iter, ta.node, "_NDINDEX_FUNC_MAP[self.tokenization_mode](self.max_grid_size)")]
+    ok_ut = len(ut) == 1 and isinstance(ut[0].target, ast.Name) and len(ut[0].body) == 1 and isinstance(ut[0].body[0], ast.Expr) \
+        and X.same_expr(ut[0].body[0].value, f"output.append(self._node_strings_map[{X.U(ut[0].target)}][0])")
     ctt = [c for c in ext if "map(str, range(self.max_grid_size))" in X.U(c)]
     ok_ctt = len(ctt) == 1 and X.same_expr(ctt[0].args[0], "['(', ',', ')', *map(str, range(self.max_grid_size))]")
     ctx.judge(ta, ok and ok_ut and ok_ctt, {"initial": X.U(first[0]) if first else None, "extends": [X.U(c)[:90] for c in ext]},
